@@ -48,6 +48,8 @@ var sourceKeyMaps = map[string]bool{
 // sourceCalls: externals whose error text echoes their (user-controlled) input without quoting.
 var sourceCalls = map[string]bool{
 	"(github.com/robfig/cron/v3.Parser).Parse": true, "os.ReadFile": true, "os.Stat": true, "os.Open": true,
+	// go-yaml's TypeError is multi-line ("yaml: unmarshal errors:\n  line 6: ...") and its syntax errors echo input
+	"gopkg.in/yaml.v3.Unmarshal": true, "(*gopkg.in/yaml.v3.Node).Decode": true, "(*gopkg.in/yaml.v3.Decoder).Decode": true,
 }
 
 // sanitisers: results never contain a raw line break from their input.
@@ -553,7 +555,7 @@ func (t *taintEng) errorText(e ssa.Value, depth int) string {
 	case *ssa.Extract:
 		if call, ok := x.Tuple.(*ssa.Call); ok {
 			name := calleeFullName(&call.Call)
-			if sourceCalls[name] {
+			if sourceCalls[name] && !yamlIntoNode(name, &call.Call) {
 				return "error text of " + name + " (echoes its input unquoted) at " + t.p.Pos(call.Pos())
 			}
 			if f := staticCallee(&call.Call); f != nil && inModule(f) && f.Blocks != nil {
@@ -595,8 +597,8 @@ func (t *taintEng) errorText(e ssa.Value, depth int) string {
 		if name == "errors.New" {
 			return t.find(x.Call.Args[0], depth+1)
 		}
-		if sourceCalls[name] {
-			return "error text of " + name
+		if sourceCalls[name] && !yamlIntoNode(name, &x.Call) {
+			return "error text of " + name + " at " + t.p.Pos(x.Pos())
 		}
 		if f := staticCallee(&x.Call); f != nil && inModule(f) && f.Blocks != nil {
 			for _, b := range f.Blocks {
@@ -970,4 +972,14 @@ func guardedPrintable(arg ssa.Value, site ssa.CallInstruction) bool {
 		}
 	}
 	return false
+}
+
+// yamlIntoNode: yaml.Unmarshal into a *yaml.Node only fails with a scanner/parser error, whose text is one line built from
+// go-yaml's constant problem descriptions ("yaml: line N: did not find expected key"); the multi-line TypeError only arises
+// when decoding into typed values.
+func yamlIntoNode(name string, cc *ssa.CallCommon) bool {
+	if name != "gopkg.in/yaml.v3.Unmarshal" || len(cc.Args) < 2 {
+		return false
+	}
+	return strings.HasSuffix(types.TypeString(unwrap(cc.Args[1]).Type(), nil), "yaml.v3.Node")
 }
